@@ -404,6 +404,7 @@ def run(ctx):
     # ---- API grain: the cursor protocol composed with real statements (Beanquery.tla)
     from harness import apicheck
     ctx.tlc('MC_Beanquery', ctx.pick('MC_Beanquery.cfg', 'MC_Beanquery_thorough.cfg'), leg='MC-api', workers=8, timeout=ctx.pick(900, 5400))
+    ctx.tlc('MC_Beanquery', 'MC_Beanquery_cachebyname.cfg', leg='MC-nonvacuity', expect_violation='HistoryIndependent', workers=4)
     apicheck.run(ctx, ctx.pick(3, 12), ctx.pick(40, 150), 14)
     ctx.exhaustive = False
 
